@@ -173,3 +173,11 @@ plan("C18", "exploration",
      "or tiny-support histogram, or a round trip with a match.",
      lambda tier: [S("C18", 30000)] if tier == "quick" else [S("C18", 1200000), S("C18", 200000, cfg="longhuff")],
      assumptions=["subset builder: only byte values with a non-zero literal count are compressed", "collected histograms are used as inputs; their exact counts are not prescribed (collectors use different match finders)"])
+
+plan("C17", "exploration",
+     "Window: hist_bits w (9..15, plus 1..8 for the round trip) with repeats placed exactly at 2^w+-3, 32768+-3 and 65536+-3 x level x flush x API x cpu level; dictionaries of 1..70000 bytes with data "
+     "copied from the dictionary tail, head and middle, set directly and via process_dict/reset_dict, decoded by the reference decoder, zlib and ISA-L primed with the same dictionary; wrong-state calls. "
+     "Thorough adds the 8 KiB-window and LONGER_HUFFTABLE builds. Non-trivial: match distance > 2^(w-1) or a match into the dictionary.",
+     lambda tier: [S("C17", 5000)] if tier == "quick" else [S("C17", 200000), S("C17", 50000, cfg="hist8k"), S("C17", 50000, cfg="longhuff")],
+     assumptions=["dictionaries are installed at stream start", "byte equality set_dict == tail-only == process/reset is sound because both paths hash the same bytes with the same mask at total_in == 0",
+                  "struct isal_dict is zeroed before isal_deflate_process_dict, as the in-tree callers do"])
